@@ -194,3 +194,33 @@ func typeString(t types.Type) string {
 }
 
 func sprintf(f string, a ...any) string { return fmt.Sprintf(f, a...) }
+
+// grid returns the quick grid, and in the thorough tier the quick grid plus every value lo, lo+step, … < hi.
+func (c *Ctx) grid(quick []int64, lo, hi, step int64) []int64 {
+	if c.Tier != "thorough" {
+		return quick
+	}
+	seen := map[int64]bool{}
+	var out []int64
+	for _, v := range quick {
+		if !seen[v] {
+			seen[v] = true
+			out = append(out, v)
+		}
+	}
+	for v := lo; v < hi; v += step {
+		if !seen[v] {
+			seen[v] = true
+			out = append(out, v)
+		}
+	}
+	return out
+}
+
+// upto is n in the quick tier and big in the thorough tier (exclusive upper bounds of tabulations).
+func (c *Ctx) upto(n, big int64) int64 {
+	if c.Tier == "thorough" {
+		return big
+	}
+	return n
+}
